@@ -736,7 +736,12 @@ class Checker:
                           % (bytes.fromhex(osv['name']), ch['sni']), case)
 
     def check_line(self, line):
-        case = json.loads(line)
+        try:
+            case = json.loads(line)
+        except ValueError:
+            # a worker that died in mid-line; the driver reports the crash itself
+            self.stat('log_lines_unreadable')
+            return
         self.stat('cases_checked')
         try:
             if case['kind'] == 'scripted':
